@@ -35,6 +35,7 @@ FP_MUTIMPORT = "mutated-type-typing-name-not-imported"
 FP_CLASSEQ = "pytd-class-eq-lookup-cache"
 FP_CONCAT = "callable-concatenate-substring-in-argument"
 FP_TYPEDDICT = "typeddict-functional-form-renamed"
+FP_SELFTYPE = "typing-self-rewritten-to-typevar"
 
 
 # ---------------------------------------------------------------------------------------------------
@@ -291,6 +292,40 @@ def explain_diff(text, text2):
       return sorted(out)
     if norm_lines(cand) == norm_lines(b):
       return (fps - {FP_IMPORT}) | {FP_TYPEDDICT}, []     # the unused Literal import belongs to the dropped total=...
+  # typing.Self: Definitions._adjust_self_var replaces Self by a TypeVar _Self<Class> bound to the class and annotates
+  # the first parameter with it; the re-printed stub spells that out (and declares the TypeVar)
+  if any(re.search(r"\bSelf\b", l) for l in cur) and any(re.match(r"^_Self\w+ = TypeVar\(", l) for l in b):
+    cand, stack, tvs, prev = [], [], {}, ""
+    for l in cur:
+      mc = re.match(r"^(\s*)class (\w+)", l)
+      if mc:
+        while stack and stack[-1][0] >= len(mc.group(1)):
+          stack.pop()
+        stack.append((len(mc.group(1)), mc.group(2)))
+      elif l.strip() and stack:
+        ind = len(l) - len(l.lstrip())
+        while stack and stack[-1][0] >= ind:
+          stack.pop()
+      pd = _parse_def(l) if stack else None
+      if pd and pd[1] and (re.search(r"\bSelf\b", pd[2]) or any(re.search(r"\bSelf\b", x) for x in pd[1][1:])):
+        qual = ".".join(n for _, n in stack)
+        tv = "_Self" + qual.replace(".", "")
+        tvs[tv] = qual
+        ps = [re.sub(r"\bSelf\b", tv, x) for x in pd[1]]
+        first = re.match(r"^(\w+)", ps[0]).group(1) if re.match(r"^\w+", ps[0]) else None
+        if first:
+          is_cm = prev.strip() == "@classmethod" or pd[0] == "__new__"
+          ps[0] = "%s: %s" % (first, "type[%s]" % tv if is_cm else tv)
+        l = re.match(r"^(\s*def \w+\()", l).group(1) + ", ".join(ps) + ") -> " + re.sub(r"\bSelf\b", tv, pd[2]) + ":" + \
+            (" ..." if pd[3] else "")
+      cand.append(l)
+      if l.strip():
+        prev = l
+    cand += ["%s = TypeVar('%s', bound=%s)" % (tv, tv, q) for tv, q in tvs.items()]
+    def norm_self(ls):
+      return sorted(l for l in ls if l.strip() and not l.startswith("from typing import "))
+    if norm_self(cand) == norm_self(b):
+      return fps | {FP_SELFTYPE}, []
   unexplained = []
   sm = difflib.SequenceMatcher(None, cur, b, autojunk=False)
   for tag, i1, i2, j1, j2 in sm.get_opcodes():
@@ -780,6 +815,10 @@ def run(res):
       "the substring heuristics of the printer (`Concatenate` in args, regex on cls) are outside the model; they are exercised "
       "only by the end-to-end fixed-point oracle on emitted and generated stubs",
       "extraction via ExtrOcamlBasic; generator, tokeniser and differ in harness/props/c05*.py",
+      "class and module LAYOUT (__slots__, class/method decorators, metaclass/total keywords, Generic/Protocol bases, nested "
+      "classes, NamedTuple/TypedDict classes, class aliases, typing.Self, ParamSpec, empty classes, section order) is not in the "
+      "Coq model: it goes through the direct oracle only (emitted/generated stub parses, passes VerifyVisitor, is a fixed "
+      "point of parse-then-print, declarations structurally equal incl. slots/decorators/keywords/method kinds and flags)",
   ]
   phase = {}
   tp = time.time()
@@ -1089,7 +1128,7 @@ def run(res):
     if time.time() - t0 > budget:
       break
     pr = common.rng(res.seed, "c05prog", i)
-    src = c05_prog.gen_program(pr)
+    src = c05_prog.gen_program(pr, allow_self=FP_SELFTYPE in res.known)
     try:
       ret, pyi = io.generate_pyi(src, opts, loader)
     except utils.UsageError:
@@ -1129,14 +1168,17 @@ def run(res):
   return "proof"
 
 
-def shrink_stub(impl, text, budget_s=15.0):
+def shrink_stub(impl, text, budget_s=15.0, mode="fix"):
   """Greedy removal of declarations (then of single class members) while the stub still parses and still is not a
   fixed point of parse-then-print.  Time-bounded."""
   deadline = time.time() + budget_s
   def noimp(t):
     return [l for l in t.rstrip("\n").split("\n") if l.strip() and not l.startswith(("from ", "import "))]
+  target = err_cause(oracle_text(impl, text)["err"]) if mode == "parse" else None
   def bad(t):
     o = oracle_text(impl, t)
+    if mode == "parse":
+      return not o["parse"] and err_cause(o["err"]) == target
     return o["parse"] and o["text2"] is not None and noimp(o["text2"]) != noimp(t)
   lines = text.rstrip("\n").split("\n")
   def blocks(ls):
@@ -1196,7 +1238,16 @@ def check_stub_text(res, impl, ids, text, origin, hist, report, unknown_violatio
     if "parameters to Callable" in str(o["err"]) and re.search(r"Callable\[[\w.]*Concatenate[\w.]*(\[[^\]]*\])?, ", text):
       report(FP_CONCAT, "the emitted stub is rejected by pytype's own reader: " + str(o["err"]).strip().split("\n")[-1], replay)
     else:
-      unknown_violation("stub-does-not-parse:" + err_cause(o["err"]),
+      cause = err_cause(o["err"])
+      if len(res.violations) < 3:
+        try:
+          small = shrink_stub(impl, text, mode="parse")
+          if small.strip() and small.strip() != text.strip():
+            replay = dict(replay, shrunk_from=text, text=small)
+            replay.pop("program", None)
+        except Exception:  # pylint: disable=broad-except
+          pass
+      unknown_violation("stub-does-not-parse:" + cause,
                         "the emitted stub is rejected by pytype's own reader: " + str(o["err"]), replay)
     return
   if not o["verify"]:
@@ -1246,11 +1297,19 @@ def check_stub_text(res, impl, ids, text, origin, hist, report, unknown_violatio
       a0 = printed_ast
     ma = type_map(impl, ids, a0)
     mb = type_map(impl, ids, o["ast"])
+    # signatures that mention typing.Self: the reader replaces Self by its own TypeVar and annotates self/cls
+    def has_self(t):
+      return any(x[0] == "V" and ids.s(x[1]).split(".")[-1] == "Self" for x in g.subterms(t)) if t[0] != "?" else False
+    self_sigs = {path[:-1] for path, t in ma.items() if has_self(t)}
     for path in ma:
       if path not in mb:
         hist["decl:only-in-printed"] += 1
         continue
       eq, fps, by_design = compare_decl(path, ma[path], mb[path])
+      if not eq and path[:-1] in self_sigs:
+        hist["decl:different"] += 1
+        report(FP_SELFTYPE, "declaration re-read with the reader's _Self TypeVar instead of typing.Self", dict(replay, path=repr(path)))
+        continue
       if eq:
         hist["decl:by-design-elision" if by_design else "decl:equal"] += 1
         continue
